@@ -290,6 +290,33 @@ func gen(tier string, seed uint64) []runner.Scenario {
 			a.sample = map[string]interface{}{"batch": a.id, "frames": "kind x done x control x ids in " + fmt.Sprint(idBounds) + " squared x payload lengths " + fmt.Sprint(payLens), "checked": "encode==reference, parse(encode)==frame, suffix remainder, every header prefix, 3 mutations of every header byte"}
 		})
 	}
+	// 1b. payloads whose length needs a 4-byte varint (2 MiB and more), with ids of every width: the longest headers there are
+	add("struct/large-payload", func(a *acc) {
+		big := make([]byte, 4<<20)
+		r := payload.SplitMix{S: 99}
+		for i := 0; i < len(big); i += 8 {
+			x := r.Next()
+			for k := 0; k < 8; k++ {
+				big[i+k] = byte(x >> (8 * uint(k)))
+			}
+		}
+		for _, l := range []int{1<<21 - 1, 1 << 21, 1<<21 + 1, 4 << 20} {
+			for _, sid := range []uint64{0, 1 << 56, 1 << 63, 1<<64 - 1} {
+				for _, mid := range []uint64{1, 1 << 63, 1<<64 - 1} {
+					fr := drpcwire.Frame{Data: big[:l], ID: drpcwire.ID{Stream: sid, Message: mid}, Kind: drpcwire.Kind(1 + (l+int(sid>>60))%7), Done: l%2 == 0, Control: sid == 0}
+					func() {
+						defer func() {
+							if p := recover(); p != nil {
+								a.fail("encode-or-parse-panic", "frame %s: panic: %v", frs(fr), p)
+							}
+						}()
+						a.roundTrip(fr, false)
+					}()
+				}
+			}
+		}
+		a.sample = map[string]interface{}{"batch": a.id, "frames": "payload lengths 2^21-1, 2^21, 2^21+1, 4 MiB x stream ids {0, 2^56, 2^63, 2^64-1} x message ids {1, 2^63, 2^64-1}"}
+	})
 	// 2. all short byte strings
 	maxLen := 2
 	if tier == "thorough" {
